@@ -1167,8 +1167,14 @@ impl LZDiff {
             }
         }
 
-        // Remaining bases are literals
-        est_cost += text_size - i;
+        // Remaining bases are literals.
+        // `i` was advanced by len_bck + len_fwd without being rewound by len_bck, so after a
+        // back-extended match that reaches the end it exceeds text_size by len_bck (bases that
+        // were already counted as literals). The remainder is therefore negative in that case:
+        // compute it in i64 instead of letting the u32 subtraction wrap (which panics when
+        // overflow checks are on and only by accident gives this value when they are off).
+        let remaining = text_size as i64 - i as i64;
+        est_cost = (est_cost as i64 + remaining).max(0) as u32;
 
         est_cost
     }
